@@ -16,6 +16,8 @@ MCAddsF == { Art(Rem("P1", <<>>), "F1"), Art(Rem("P1", <<>>), "F2"), Art(Reg("R1
 MCLocalRels0 == { [ups |-> 0, names |-> <<"m">>] }      \* relative dependencies that cannot fail to resolve
 \* version selection universe: several requests against one registry package
 MCAddsV == { Art(Reg("R1", <<>>, al), "F1") : al \in MCAllowed } \cup { Art(Reg("R1", <<"m">>, {2}), "F1") }
+\* one registry package version reached through different sub-paths, in either order
+MCAddsG == { Art(Reg("R1", <<>>, {1, 2}), "F1"), Art(Reg("R1", <<"m">>, {2}), "F1"), Art(Reg("R1", <<"m">>, {1, 2}), "F1") }
 \* coalescing universe: remote adds only
 MCAddsR == { Art(Rem("P1", <<>>), "F1"), Art(Rem("P2", <<>>), "F1"), Art(Rem("P2", <<"m">>), "F1") }
 =============================================================================
